@@ -22,6 +22,10 @@ fn hostile_tl(r: &mut Rng, kinds: &[Kind], full_range_ints: bool) -> TlSpec {
     let delay = *r.pick(&DELAYS);
     let repeat = *r.pick(&REPS);
     let n = r.usize(5);
+    // "huge" mode: values up to +-3e38 (every interpolated value between two of them is representable) with
+    // easings that stay within [0,1]; otherwise values up to +-1e37 with all easings incl. the Back family
+    let huge = r.chance(1, 6);
+    let n_eas = if huge { 26 } else { 29 };
     let mut kfs = Vec::new();
     for _ in 0..n {
         let pos = match r.below(8) {
@@ -40,6 +44,7 @@ fn hostile_tl(r: &mut Rng, kinds: &[Kind], full_range_ints: bool) -> TlSpec {
                     return None;
                 }
                 Some(match k {
+                    Kind::F32 | Kind::F64 if huge => *r.pick(&[3.0e38f64, -3.0e38, 1.0e38, -1.0e38, 0.0, 2.5e38]),
                     Kind::F32 | Kind::F64 => match r.below(6) {
                         0 => 1e37,
                         1 => -1e37,
@@ -56,10 +61,10 @@ fn hostile_tl(r: &mut Rng, kinds: &[Kind], full_range_ints: bool) -> TlSpec {
                 })
             })
             .collect();
-        kfs.push(KfSpec { pos, vals, easing: if r.chance(1, 2) { Some(Eas::Builtin(r.usize(29))) } else { None } });
+        kfs.push(KfSpec { pos, vals, easing: if r.chance(1, 2) { Some(Eas::Builtin(r.usize(n_eas))) } else { None } });
     }
     kfs.sort_by(|a, b| a.pos.total_cmp(&b.pos));
-    TlSpec { cycle, delay, repeat, reverse: r.chance(1, 3), default_easing: if r.chance(1, 2) { Some(Eas::Builtin(r.usize(29))) } else { None }, kfs }
+    TlSpec { cycle, delay, repeat, reverse: r.chance(1, 3), default_easing: if r.chance(1, 2) || huge { Some(Eas::Builtin(r.usize(n_eas))) } else { None }, kfs }
 }
 
 fn hostile_times(s: &TlSpec, r: &mut Rng) -> Vec<f32> {
@@ -303,7 +308,7 @@ pub fn log_only(run: &mut Run, path: &str) {
 pub fn run(run: &mut Run) {
     run.rule = "hostile alphabets: repeat in {None, Times 0/1/3/2^24/u32::MAX-1/u32::MAX, Infinite}, cycle in {smallest subnormal, 1e-40, MIN_POSITIVE, \
         1e-30 .. 1e30, f32::MAX}, delay in {0, 1e-30 .. 1e30, f32::MAX, -0.25}, keyframe positions incl. 0, 1, 1-ulp, \
-        denormal, values up to +-1e37, integer properties spanning their full type range under all 29 easings, times at \
+        denormal, values up to +-1e37 (up to +-3e38 with easings that stay in [0,1]), integer properties spanning their full type range under all 29 easings, times at \
         0, every phase boundary +-1 ulp, 1e9, 1e30, f32::MAX; animator advances incl. 1e18, 1e19, 1e20, 1e30, f32::MAX \
         (sums beyond Duration::MAX); every build/evaluate/query call under catch_unwind, every output scanned for \
         NaN/inf, duration() compared with the documented total, and the canonical output log of the identical seeded \
